@@ -36,7 +36,7 @@ fn ext_response(id: i64, rc: i64) -> Vec<u8> { enc(&message(id, c(TagClass::Appl
 fn first_id(b: &[u8]) -> i64 { let mut m = true; match ownber::read(b, &mut m, 0) { ownber::Own::Ok(t, _) => match &t.payload { PL::C(k) => match &k[0].payload { PL::P(v) => ownber::twos(v).unwrap_or(1) as i64, _ => 1 }, _ => 1 }, _ => 1 } }
 
 fn identity(which: &str) -> Option<native_tls::Identity> {
-    let f = std::fs::read(format!("/verif/.cache/certs/{}.p12", match which { "trusted" => "good", "wrongname" => "wrongname", _ => "self" })).ok()?;
+    let f = std::fs::read(format!("/verif/.cache/certs/{}.p12", match which { "trusted" => "good", "wrongname" => "wrongname", "dnsonly" => "dnsonly", _ => "self" })).ok()?;
     native_tls::Identity::from_pkcs12(&f, "l3h").ok()
 }
 
@@ -190,6 +190,9 @@ pub fn gen_setup(rng: &mut Rng, n: usize, out: &mut Vec<String>) {
         let line = format!("setup {} {} {} {} {} none 2000", hex(u.as_bytes()), sch, hex(b"localhost"), port, st);
         if !out.iter().any(|x| *x == line) { out.push(line); }
     }
+    // always: a connection timeout so large that now + timeout does not exist ("no settings combination makes connection setup panic")
+    for (u, sch, port, st, tmo) in [("ldap://localhost:38901", "ldap", "38901", 0, "max"), ("ldap://localhost:38901", "ldap", "38901", 1, "i64max"), ("ldaps://localhost:38901", "ldaps", "38901", 0, "max")] {
+        out.push(format!("setup {} {} {} {} {} none {}", hex(u.as_bytes()), sch, hex(b"localhost"), port, st, tmo)); }
     // ... and an ldapi URL with the StartTLS setting (F27): by path, and with a pre-opened socket
     { let u = format!("ldapi://{}", sock_enc);
       for std in ["none", "unix"] { let line = format!("setup {} ldapi {} none 1 {} none", hex(u.as_bytes()), hex(sock_enc.as_bytes()), std); if !out.iter().any(|x| *x == line) { out.push(line); } } }
@@ -247,7 +250,8 @@ pub fn run_setup(lane: &str, args: &[&str]) -> (String, Option<String>) {
     nt.events.lock().unwrap().clear();
     let mut pre = "none";
     let mut st = LdapConnSettings::new().set_starttls(starttls);
-    if args[6] != "none" { st = st.set_conn_timeout(Duration::from_millis(args[6].parse().unwrap())); }
+    if args[6] == "max" { st = st.set_conn_timeout(Duration::MAX); } else if args[6] == "i64max" { st = st.set_conn_timeout(Duration::from_secs(i64::MAX as u64)); }
+    else if args[6] != "none" { st = st.set_conn_timeout(Duration::from_millis(args[6].parse().unwrap())); }
     match args[5] {
         "tcp" => { match std::net::TcpStream::connect(("127.0.0.1", P_PLAIN)) { Ok(s) => { st = st.set_std_stream(StdStream::Tcp(s)); pre = "tcp"; } Err(_) => return ("skipped".into(), None) } }
         "unix" => { match std::os::unix::net::UnixStream::connect(SOCK) { Ok(s) => { st = st.set_std_stream(StdStream::Unix(s)); pre = "unix"; } Err(_) => return ("skipped".into(), None) } }
@@ -301,14 +305,16 @@ pub fn gen_tls(rng: &mut Rng, n: usize, out: &mut Vec<String>) {
     // instances each)
     for fixed in ["tls ldap 1 0 ca slam trusted 1 -", "tls ldap 1 1 none slam selfsigned 1 -", "tls ldap 1 0 none slam trusted 0 -",
                   "tls ldap 1 0 ca greet trusted 1 -", "tls ldap 1 1 none greet selfsigned 1 -", "tls ldap 1 1 none greet wrongname 1 -", "tls ldap 1 0 ca greet trusted 0 -", "tls ldap 1 0 ca greet trusted 1 forged", "tls ldap 1 0 ca rc4294967296 trusted 1 -", "tls ldap 1 1 none rc227633266688 selfsigned 1 -",
-                  "tls ldaps 0 0 ca success trusted 1 v6", "tls ldap 1 0 ca success trusted 1 v6", "tls ldaps 0 0 ca success wrongname 1 v6", "tls ldaps 0 0 none success trusted 1 v6", "tls ldaps 0 1 none success selfsigned 1 v6"] {
+                  "tls ldaps 0 0 ca success trusted 1 v6", "tls ldap 1 0 ca success trusted 1 v6", "tls ldaps 0 0 ca success wrongname 1 v6", "tls ldaps 0 0 none success trusted 1 v6", "tls ldaps 0 1 none success selfsigned 1 v6",
+                  // a certificate from the trusted CA that names the host "localhost" only, presented at an address written as an IPv6 literal
+                  "tls ldaps 0 0 ca success dnsonly 1 v6", "tls ldap 1 0 ca success dnsonly 1 v6"] {
         if !out.iter().any(|x| x == fixed) { out.push(fixed.to_string()); }
     }
 }
 
 pub fn run_tls(args: &[&str]) -> (String, Option<String>) {
     let nt = net();
-    if !nt.ok || !std::path::Path::new("/verif/.cache/certs/done2").exists() { return ("skipped".into(), None); }
+    if !nt.ok || !std::path::Path::new("/verif/.cache/certs/done3").exists() { return ("skipped".into(), None); }
     let (scheme, starttls, noverify, connector, answer, cert, hs, extra) = (args[0], args[1] == "1", args[2] == "1", args[3], args[4], args[5], args[6] == "1", args[7]);
     let forged = enc(&message(2, ldap_result(1, 0, b"", b"forged-in-the-clear", None), None));
     *nt.behaviour.lock().unwrap() = Behaviour { answer: answer.into(), cert: cert.into(), handshake_ok: hs, extra: if extra == "forged" { forged } else { vec![] } };
